@@ -208,6 +208,23 @@ def run(out, tier):
         for want in ("ok:parse", "ok:mul", "ok:ltr", "ok:inv", "ok:r2r", "ok:dec", "ok:roundtrip"):
             if not hist.get(want):
                 raise common.MachineryError("vacuous run, no %s: %r" % (want, hist))
+        # the algebraic laws as polynomial identities over Int (valid over the reals): TLAPS + Z3
+        import os, re, shutil, subprocess
+        pdir = os.path.join(wd, "proofs")
+        os.makedirs(pdir)
+        shutil.copy(os.path.join(common.SPEC, "proofs", "AffineLaws.tla"), pdir)
+        try:
+            p = subprocess.run(["tlapm", "--cleanfp", "AffineLaws.tla"], cwd=pdir, stdout=subprocess.PIPE,
+                               stderr=subprocess.STDOUT, text=True, timeout=900)
+            m = re.search(r"All (\d+) obligations proved", p.stdout)
+            cov["obligations"] = int(m.group(1)) if m else 0
+            cov["discharged"] = int(m.group(1)) if m else 0
+            cov["checker_cmd"] = "tlapm --cleanfp spec/proofs/AffineLaws.tla"
+            cov["trusted_base"] = ["tlapm 1.6.0-pre", "Z3 back end", "SANY"]
+            if not m:
+                raise common.MachineryError("TLAPS did not discharge AffineLaws.tla:\n" + p.stdout[-1500:])
+        except (OSError, subprocess.TimeoutExpired) as e:
+            raise common.MachineryError("tlapm failed: %s" % e)
         for r, v in zip(recs, verdicts):
             if v.startswith("BAD"):
                 w = {k: ("".join(x) if k == "s" else x) for k, x in r.items()}
